@@ -20,13 +20,13 @@ import (
 
 // TrafficCfg is one delivery configuration.
 type TrafficCfg struct {
-	Conns, Channels  int
-	Window, Queue    int
-	RBuf, WBuf       int
-	Compress         bool
-	Msgs             int // messages per direction per channel (upper bound)
-	MaxProcs         int
-	SizeCap          int
+	Conns, Channels int
+	Window, Queue   int
+	RBuf, WBuf      int
+	Compress        bool
+	Msgs            int // messages per direction per channel (upper bound)
+	MaxProcs        int
+	SizeCap         int
 }
 
 func (c TrafficCfg) String() string {
